@@ -250,6 +250,8 @@ def py_fits(shape, v):
         return True
     if "o" in shape:
         return py_fits(shape["o"], v)
+    if shape["pick"] != "first":
+        return True          # a delegating `<Wrapper>.serialize` takes whatever it is handed and decides inside
     fit = [py_fits(x, v) for x in shape["opts"]]
     return all(fit) if shape["wn"] == "allOf" else any(fit)
 
@@ -275,6 +277,60 @@ def _child(v, key):
     return None
 
 
+def fallback_shape(shape):
+    """mirror of `fallbackSite` (Sem/Alias.lean): no option takes the value — the wrapper's `(k, untyped)` site with
+    first-fit choice, `(misfit, <category of the fixed option>)` with a fixed delegation"""
+    if shape["pick"] == "first" or shape["pick"] >= len(shape["opts"]):
+        return {"w": shape["wn"], "inner": "untyped"}
+    return {"w": "misfit", "inner": {"s": shape_cat(shape["opts"][shape["pick"]])}}
+
+
+def site_chain_v(shape, v, path):
+    """`site_chain` along ONE path of the actual value (elements of one collection may take different options)"""
+    chain, s, path, depth = [], shape, list(path), 0
+    while True:
+        if s in ("any", "untyped"):
+            chain.append((depth, "any", "none"))
+            return chain
+        if "s" in s:
+            return chain
+        if "o" in s:
+            s = s["o"]
+            continue
+        if "wn" in s:
+            i = py_pick(s, v)
+            if i >= len(s["opts"]):
+                fb = fallback_shape(s)
+                chain.append((depth, fb["w"], shape_cat(fb["inner"])))
+                return chain
+            chain.append((depth, s["wn"], shape_cat(s["opts"][i])))
+            s = s["opts"][i]
+            continue
+        if "w" in s:
+            chain.append((depth, s["w"], shape_cat(s["inner"])))
+            s = s["inner"]
+            continue
+        if "c" in s:
+            chain.append((depth, s["c"], shape_cat(s["item"])))
+            if not path:
+                return chain
+            key = path.pop(0)
+            v = _child(v, key) if key != "*" else next(iter(v), None) if isinstance(v, (set, frozenset)) else None
+            depth += 1
+            s = s["item"]
+            continue
+        chain.append((depth, s["k"], "none"))
+        if not path:
+            return chain
+        key = path.pop(0)
+        v = _child(v, key)
+        depth += 1
+        nxt = [fs for n, fs in s["fields"] if n == key]
+        if not nxt:
+            return chain
+        s = nxt[0]
+
+
 def resolve_shape(shape, v):
     """the single-option shape the value selects (every `wn` node replaced by the `w` node of the option the value
     fits, `o` nodes dropped): the form `site_chain` / `responsible_site` walk"""
@@ -287,7 +343,7 @@ def resolve_shape(shape, v):
     if "wn" in shape:
         i = py_pick(shape, v)
         if i >= len(shape["opts"]):
-            return {"w": shape["wn"], "inner": "untyped"}
+            return fallback_shape(shape)
         return {"w": shape["wn"], "inner": resolve_shape(shape["opts"][i], v)}
     if "w" in shape:
         return {"w": shape["w"], "inner": resolve_shape(shape["inner"], v)}
@@ -336,7 +392,9 @@ def shape_for(d, v, op=None):
         pick = "first"
         if op in OUTPUT_FIELD_OPS:
             pick = delegated_option(k, d["fields"])
-        return {"wn": k, "pick": pick, "opts": [shape_for(x, v, op) for x in d["fields"]]}
+        # (an Enum option of a delegating wrapper has its own category: `Enum.serialize` returns whatever it is given)
+        opt = lambda x: {"s": "enum"} if op in OUTPUT_FIELD_OPS and x["k"] in ("enumLit", "enumCls") else shape_for(x, v, op)
+        return {"wn": k, "pick": pick, "opts": [opt(x) for x in d["fields"]]}
     raise ValueError(f"shape_for: {k}")
 
 
@@ -432,10 +490,10 @@ def site_chain(shape, path):
         s = nxt[0]
 
 
-def responsible_site(shape, path, modes):
+def responsible_site(shape, path, modes, chain=None):
     """the table site to blame for aliasing of the node at `path`: among the sites sitting at that node (a
     chain of wrappers and the option inside) the first one the table says aliases; the node's own site otherwise"""
-    chain = site_chain(shape, path)
+    chain = [tuple(c) for c in chain] if chain is not None else site_chain(shape, path)
     if not chain:
         return None, chain
     at_node = [c for c in chain if c[0] == len(path)] or [chain[-1]]
@@ -566,7 +624,12 @@ def build_imm_class(owner):
     """immutable owners holding tuple-valued data: owner = "structure" (ImmutableStructure) | "fields" (a mutable
     Structure all of whose fields are declared immutable=True)"""
     import typedpy as T
-    inner = type("ImmInner", (Structure,), {"x": T.Integer(), "l": T.Array(items=T.Integer()), "_required": ["x"]})
+    from typedpy.serialization.fast_serialization import FastSerializable
+    inner = type("ImmInner", (Structure, FastSerializable), {"x": T.Integer(), "l": T.Array(items=T.Integer()), "_required": ["x"]})
+    try:
+        create_serializer(inner)     # (create_serializer of the owner checks the classes its Tuple items refer to)
+    except Exception:
+        pass
     imm = {"immutable": True} if owner == "fields" else {}
     body = {"ts": T.Tuple(items=[T.ClassReference(inner), T.Integer()], **imm), "any": T.Anything(**imm),
             "tu": T.Tuple(items=[T.Anything(), T.Integer()], **imm), "ar": T.Array(**imm), "mp": T.Map(**imm),
@@ -1067,6 +1130,17 @@ def run_impl(case):
         res["poke_error"] = f"{type(e).__name__}: {e}"[:300]
         hits = []
     res["poked"] = [[p, m] for p, m in hits]
+    # table sites along every path a finding could be blamed on, resolved on the ACTUAL value
+    chains = {}
+    for p in [list(q) for q in res.get("shared_all_paths", [])] + [list(q) for q, _ in hits]:
+        for n in range(len(p) + 1):
+            key = json.dumps(p[:n])
+            if key not in chains:
+                try:
+                    chains[key] = [list(c) for c in site_chain_v(sit.shape, sit.source, p[:n])]
+                except Exception:
+                    pass
+    res["chains"] = chains
     return res
 
 
@@ -1169,7 +1243,8 @@ def judge(case, impl, model):
                           [list(q) for q, _ in impl.get("poked", [])]
             prefixes = [vis_path[:n] for n in range(len(vis_path) + 1) if vis_path[:n] in known_paths]
             blame_path = prefixes[0] if prefixes else vis_path
-            site, chain = responsible_site(impl.get("rshape", impl["shape"]), blame_path, modes)
+            site, chain = responsible_site(impl.get("rshape", impl["shape"]), blame_path, modes,
+                                           chain=impl.get("chains", {}).get(json.dumps(blame_path)))
             if site is None:
                 continue
             if not immutable_output(case) and not all(site_in_scope(op, k) for _, k, _ in chain):
@@ -1401,8 +1476,11 @@ def item_witness(cat):
         "any": ({"k": "anything"}, {"l": [1, {"l": [2]}]}, {"l": [1, {"l": [2]}]}),
         "coll": (ARR_INT, {"l": [1, 2]}, {"l": [1, 2]}),
         "struct": (INNER, inst, inner_doc),
-        "inline": (dict(_cls("Inl", [["x", INT], ["l", ARR_INT]]), inline=True), inner_doc, inner_doc),
-        "wrap": ({"k": "anyOf", "fields": [STR, ARR_INT]}, {"l": [1, 2]}, {"l": [1, 2]}),
+        # (an undeclared key holding a container: kept by reference by the inline structure on its own)
+        "inline": (dict(_cls("Inl", [["x", INT], ["l", ARR_INT]], addl=True), inline=True),
+                   {"m": inner_doc["m"] + [["zz", {"l": [1]}]]}, {"m": inner_doc["m"] + [["zz", {"l": [1]}]]}),
+        # (untyped content inside: a wrapper that copies generically and one that hands the value on can be told apart)
+        "wrap": ({"k": "anyOf", "fields": [STR, {"k": "seqAny"}]}, {"l": [1, {"l": [2]}]}, {"l": [1, {"l": [2]}]}),
     }[cat]
 
 
@@ -1462,6 +1540,10 @@ def witness(kind, cat):
         if cat == "none":
             return None
         d, v, doc = item_witness(cat)
+        if cat == "coll":
+            # a collection option with UNTYPED content: the option on its own keeps the inner objects, so whether the
+            # wrapper hands the value to the option or copies it generically (OneOf / AllOf: a private deep copy) shows
+            d, v, doc = UNTYPED_WITNESS["array"]
         if kind == "allOf":
             return {"k": "allOf", "fields": [d]}, v, doc
         other = STR if cat not in ("string",) else INT
@@ -1483,13 +1565,35 @@ def field_sites():
     sites += [(k, c) for k in COLL_KINDS for c in COLL_CATS]
     sites += [(k, c) for k in WRAP_KINDS for c in WRAP_CATS + ["untyped"]]
     sites = [s for s in sites if witness(*s) is not None or (s[0] in ("oneOf", "allOf") and s[1] == "untyped")]
+    sites += [("anyOf", "enum"), ("allOf", "enum")] + [("misfit", c) for c in MISFIT_OPTS]
     return sites + [("owner", "none")]
 
 
 NOFIT = {"m": [["z", {"l": [1]}]]}       # a dict: fits neither Array[Integer] nor String
 
 
+ENUM_LIT = {"k": "enumLit", "values": [1, 2, "x1"]}
+MISFIT_OPTS = {"number": INT, "string": STR, "scalar": {"k": "boolean"}, "enum": ENUM_LIT,
+               "coll": {"k": "mapOf", "key": STR, "val": INT}, "inline": dict(_cls("InlM", [["x", INT]]), inline=True)}
+
+
 def witness_case(op, kind, cat):
+    if kind == "misfit":
+        # `AnyOf.serialize` hands every value to its last non-None option: a list stored through the Array option
+        # reaches `<option of category cat>.serialize`
+        if op not in OUTPUT_FIELD_OPS or cat not in MISFIT_OPTS:
+            return None
+        d = {"k": "anyOf", "fields": [ARR_INT, copy.deepcopy(MISFIT_OPTS[cat])]}
+        cls = _cls(f"W_misfit_{cat}", [["f", d]])
+        base = {"suite": "alias", "cls": cls, "witness": [op, kind, cat], "pokeLimit": 120, "kw": [["f", {"l": [1, 2]}]]}
+        return dict(base, op=op, field="f") if op == "fieldSerialize" else dict(base, op=op)
+    if kind in ("anyOf", "allOf") and cat == "enum":
+        if op not in OUTPUT_FIELD_OPS:
+            return None
+        d = {"k": kind, "fields": [copy.deepcopy(ENUM_LIT)] if kind == "allOf" else [ARR_INT, copy.deepcopy(ENUM_LIT)]}
+        cls = _cls(f"W_{kind}_enum", [["f", d]])
+        base = {"suite": "alias", "cls": cls, "witness": [op, kind, cat], "pokeLimit": 120, "kw": [["f", 2]]}
+        return dict(base, op=op, field="f") if op == "fieldSerialize" else dict(base, op=op)
     if kind == "owner":
         # the defensive copy of an immutable owner in front of an Anything field (which on its own keeps / hands out
         # the very object): constructor / Deserializer of an ImmutableStructure, first assignment of an immutable=True
@@ -1504,9 +1608,11 @@ def witness_case(op, kind, cat):
         if op == "fieldSerialize":
             return dict(base, op=op, imm="structure", only=["opt"], field="opt")
         return None
-    if kind in ("anyOf", "oneOf", "allOf") and cat == "untyped" and not (kind == "anyOf" and op in OUTPUT_FIELD_OPS):
+    if kind in ("anyOf", "oneOf", "allOf") and cat == "untyped" and \
+            not (op in OUTPUT_FIELD_OPS and delegated_option(kind, [ARR_INT, STR]) != "first"):
         # no option takes the value: input operations are given one (a dict), output operations find one put into
-        # the instance behind validation's back (for AnyOf.serialize the existing witness below is of that kind already)
+        # the instance behind validation's back (a wrapper whose `serialize` delegates to a FIXED option has the `misfit`
+        # sites instead)
         d = {"k": kind, "fields": [ARR_INT] if kind == "allOf" else [ARR_INT, STR]}
         cls = _cls(f"W_{kind}_nofit", [["f", d]])
         base = {"suite": "alias", "cls": cls, "witness": [op, kind, cat], "pokeLimit": 120}
